@@ -327,6 +327,8 @@ def curated_calls(obj, rng, nodes_by_type):
             out.append({"t": "userfunc", "name": "image_2d_from", "centre": [rng.choice([0.05, 2.05, -1.1, 0.5]), rng.choice([0.05, -1.95, 0.7])], "scale": rng.choice([0.3, 0.6, 1.5])})
         out.append({"t": "userfunc", "name": "deflections_yx_2d_from", "centre": [rng.uniform(-1, 1), rng.uniform(-1, 1)], "scale": rng.choice([0.5, 1.0])})
         c = _T(rng.uniform(-2, 2), rng.uniform(-2, 2))
+        out.append({"t": "call", "name": "grid_with_coordinates_within_distance_removed_from",
+                    "kw": {"coordinates": {"$list": [_T(rng.uniform(-2, 2), rng.uniform(-2, 2)) for _ in range(rng.randrange(1, 3))]}, "distance": rng.choice([0.6, 1.1, 2.0])}})
         out.append({"t": "call", "name": "distances_to_coordinate_from", "kw": {"coordinate": c}})
         out.append({"t": "call", "name": "squared_distances_to_coordinate_from", "kw": {"coordinate": c}})
         out.append({"t": "call", "name": "blurring_grid_via_kernel_shape_from", "kw": {"kernel_shape_native": kshape}})
@@ -371,6 +373,8 @@ def curated_calls(obj, rng, nodes_by_type):
     if tn in ("Array2D", "Kernel2D"):
         # the non-seeded preprocessing helpers: pure functions of their arguments
         out.append({"t": "fn", "name": "preprocess.noise_map_via_weight_map_from", "kw": {"weight_map": {"$abs": {"$self": True}}}})
+        out.append({"t": "fn", "name": "preprocess.noise_map_via_weight_map_from", "kw": {"weight_map": {"$self": True}}})
+        out.append({"t": "fn", "name": "preprocess.noise_map_via_inverse_noise_map_from", "kw": {"inverse_noise_map": {"$self": True}}})
         out.append({"t": "fn", "name": "preprocess.noise_map_via_inverse_noise_map_from", "kw": {"inverse_noise_map": {"$abs": {"$self": True}}}})
         out.append({"t": "fn", "name": "preprocess.array_eps_to_counts", "kw": {"array_eps": {"$self": True}, "exposure_time_map": {"$const_like": [{"$self": True}, 300.0]}}})
         out.append({"t": "fn", "name": "preprocess.edges_from", "kw": {"image": {"$self": True}, "no_edges": rng.randrange(1, 3)}})
@@ -452,6 +456,8 @@ def curated_calls(obj, rng, nodes_by_type):
         pass
     if tn == "Grid2DIrregular":
         c = _T(rng.uniform(-2, 2), rng.uniform(-2, 2))
+        out.append({"t": "call", "name": "grid_with_coordinates_within_distance_removed_from",
+                    "kw": {"coordinates": {"$list": [_T(rng.uniform(-2, 2), rng.uniform(-2, 2)) for _ in range(rng.randrange(1, 3))]}, "distance": rng.choice([0.6, 1.1, 2.0])}})
         out.append({"t": "call", "name": "distances_to_coordinate_from", "kw": {"coordinate": c}})
         out.append({"t": "call", "name": "extent_with_buffer_from", "kw": {"buffer": 1e-8}})
     if tn in ("Imaging",):
